@@ -199,7 +199,7 @@ class ManWorld:
             # no ping gets through at all, and the first p requests of each handshake step are lost
             if d.verb == "APING":
                 return []
-            if d.dir == "c2s" and d.verb in ("AVERS", "CURCH", "SFILE"):
+            if d.dir == "c2s" and d.verb in ("AVERS", "CURCH", "SFILE", "STATU"):
                 n = self._slow.get(d.verb, 0)
                 if n < self.p:
                     self._slow[d.verb] = n + 1
